@@ -200,4 +200,50 @@ def regionBit (i : Input) : String :=
       | _ => false
     if ok then "WF" else "Out"
 
+/-! ## C01 leg of the enum area: does a `shoot enum` run over a package yield compiling Go?
+
+One case = one package (all const blocks), the flag set, and the types the run generates for
+(named by `-type=A,B`, or listed by `-file=` / `-type=*`: `ListTypes` keeps only the kinds int, uint,
+int32, uint32).  The classes are those of C04 / C14, read off what the generator collects:
+
+* `-gorm` without `-sql` is a usage error ⇒ `Out`; a malformed case or a run that writes nothing
+  (no selected type has a constant) ⇒ `Out`;
+* a negative constant ⇒ `F_enumNegative`, a constant ≥ 2^63 ⇒ `F_enumBig` (the run exits 1);
+* `-bit` ⇒ `F_enumBitMap` (undefined `_<t>_map`);
+* two constants with the same value or the same trimmed name ⇒ `F_enumDupKey` (duplicate map keys);
+* otherwise `WF`: exit 0, header, gofmt-clean, same package, compiles.
+-/
+
+structure PkgCase where
+  bit : Bool
+  sql : Bool
+  gorm : Bool
+  /-- the types the run generates for -/
+  types : List Name
+  blocks : List (List VSpec)
+  wellFormed : Bool
+
+def PkgCase.tablesOf (p : PkgCase) : List (Name × List Const) :=
+  (p.types.map (fun T => (T, sortC (collect T p.blocks)))).filter (fun e => !e.2.isEmpty)
+
+def PkgCase.hasNeg (p : PkgCase) : Bool := p.tablesOf.any (fun e => e.2.any (fun c => decide (c.val < 0)))
+def PkgCase.hasBig (p : PkgCase) : Bool :=
+  p.tablesOf.any (fun e => e.2.any (fun c => decide (c.val ≥ 9223372036854775808)))
+def PkgCase.hasDup (p : PkgCase) : Bool :=
+  p.tablesOf.any (fun e => !(decide (valuesT e.2).Nodup && decide (stringsT e.1 e.2).Nodup))
+
+def c01Region (p : PkgCase) : String :=
+  if !p.wellFormed || (p.gorm && !p.sql) || p.tablesOf.isEmpty then "Out"
+  else if p.hasNeg then "F_enumNegative"
+  else if p.hasBig then "F_enumBig"
+  else if p.bit then "F_enumBitMap"
+  else if p.hasDup then "F_enumDupKey"
+  else "WF"
+
+/-- what the model of the generator predicts for the run: (exit code, something written, compiles) -/
+def c01Model (p : PkgCase) : Nat × Bool × Bool :=
+  if p.gorm && !p.sql then (1, false, false)
+  else if p.tablesOf.any (fun e => match gen e.1 p.blocks with | .formatError => true | _ => false) then (1, false, false)
+  else (0, !p.tablesOf.isEmpty, p.tablesOf.all (fun e => compiles p.bit e.1 e.2))
+
 end ShootVerif.Enum
